@@ -26,7 +26,7 @@ func init() {
 			"horizon: queries up to 3 days of playing time (whatever the tick count), tempo events in a single track",
 			"inverse domain: durations below 2^40 microseconds and tick rates below 10^7 ticks per second (statement)",
 		},
-		Require: []string{"lookahead_queries_inside_do", "tracks_with_events_2^32_ticks_apart", "track_selection_reads", "other_events_with_delta_between_tempo_events", "maps", "queries", "border_queries", "monotonic_pairs", "repeated_tick_maps", "late_first_event_maps", "do_events_compared", "inverse_triples", "queries_beyond_2^32_ticks", "do_filtered_events_compared", "tempo_track_not_first", "format2_maps", "large_tempo_maps", "tempo_maps_with_more_than_32768_events", "undecodable_tempo_events_between_tempo_changes"},
+		Require: []string{"lookahead_queries_inside_do", "tracks_with_events_2^32_ticks_apart", "track_selection_reads", "other_events_with_delta_between_tempo_events", "maps", "queries", "border_queries", "monotonic_pairs", "repeated_tick_maps", "late_first_event_maps", "do_events_compared", "inverse_triples", "queries_beyond_2^32_ticks", "do_filtered_events_compared", "tempo_track_not_first", "format2_maps", "large_tempo_maps", "tempo_maps_with_more_than_32768_events", "undecodable_tempo_events_between_tempo_changes", "full_iterations_started_from_inside_a_do_callback"},
 		Run:     runC11,
 	})
 }
@@ -253,6 +253,7 @@ func runC11(c *mon.Ctx) {
 			return
 		}
 		doEvents := 0
+		nested := false
 		c.Guard("panic:Do", in, func() {
 			var absT = map[int]int64{}
 			trd.Do(func(te smf.TrackEvent) {
@@ -281,6 +282,14 @@ func runC11(c *mon.Ctx) {
 					c.Violation("timeat-in-callback", fmt.Sprintf("TimeAt(%d) called from inside the Do callback of the event at tick %d = %d, exact %d", la, te.AbsTicks, trd.SMF().TimeAt(la), tm.Micros(nl)), in, tm.Micros(nl), trd.SMF().TimeAt(la))
 				}
 				c.Count("lookahead_queries_inside_do", 1)
+				// now and then the callback scans the whole file itself (where does the song end?) with a Do of its own on the
+				// same reader, then the outer iteration goes on: its remaining times are checked above as before
+				if !huge && !nested && i%4 == 2 && doEvents == 3 {
+					nested = true
+					n := 0
+					trd.Do(func(smf.TrackEvent) { n++ })
+					c.Count("full_iterations_started_from_inside_a_do_callback", 1)
+				}
 			})
 		})
 		// reading a selection of tracks (also selections that leave out the track with the tempo events): the
